@@ -6,8 +6,12 @@ package harness
 // draws equal an independent little-endian, zero-padded word replay; deterministic; padding-insensitive.
 
 import (
+	"bytes"
 	"encoding/binary"
 	"fmt"
+	"os"
+	"os/exec"
+	"runtime/debug"
 	"strings"
 	"time"
 
@@ -254,6 +258,33 @@ func c13Units(tier string, seed int64) []Unit {
 			}
 		}
 	}})
+	// "never crashes": a recursive generator under a long input that says "go on" at every step. The nesting depth
+	// is bounded by nothing but the length of the input, and Go's stack overflow is unrecoverable: probed in a
+	// subprocess whose maximal stack is lowered to 1 MiB (with the default of 1 GiB the same happens at a few MiB of
+	// input; the work before that is quadratic in the input, which is why the probe is scaled down)
+	units = append(units, Unit{Name: "C13/long-input-into-a-recursive-generator", Run: func(c *Ctx) {
+		self, _ := os.Executable()
+		for _, gen := range []string{"deferred-list", "make-list"} {
+			for _, kb := range []int{2, 16, 96} {
+				out, err := exec.Command(self, "fuzzdeepprobe", gen, fmt.Sprint(kb)).CombinedOutput()
+				c.R.Evals++
+				c.R.States++
+				c.R.Transitions++
+				switch {
+				case err == nil && strings.Contains(string(out), "outcome="):
+					c.Outcome(gen+" "+strings.TrimSpace(string(out)), true)
+				case crashKind(string(out)) != "":
+					c.Outcome(fmt.Sprintf("%s %dKiB crash %s", gen, kb, crashKind(string(out))), true)
+					c.Violate(Violation{Sig: "C13 fuzz-target-crashes generator=" + gen + " crash=" + crashKind(string(out)),
+						Detail: fmt.Sprintf("the MakeFuzz body for a recursive generator (%s) on %d KiB of 0xff bytes took the process down (maximal stack lowered to 1 MiB):\n%s", gen, kb, trunc(string(out), 800)),
+						Replay: map[string]any{"engine": "subprocess", "generator": gen, "kib": kb}, Devs: kb})
+				default:
+					c.R.HarnessErr = fmt.Sprintf("fuzzdeepprobe %s %d: %v: %s", gen, kb, err, trunc(string(out), 400))
+					return
+				}
+			}
+		}
+	}})
 	units = append(units, fuzzWrapUnit())
 	return units
 }
@@ -297,4 +328,35 @@ func c13NestedMakes() []func() *rapid.Generator[any] {
 		func() *rapid.Generator[any] { return rapid.Make[nest7]().AsAny() },
 		func() *rapid.Generator[any] { return rapid.Make[nest8]().AsAny() },
 	}
+}
+
+type c13Node struct {
+	V    int8
+	Next *c13Node
+}
+
+// FuzzDeepProbeMain (subprocess): the MakeFuzz body of a recursive generator on kb KiB of 0xff bytes.
+func FuzzDeepProbeMain(gen, kbs string) {
+	debug.SetMaxStack(1 << 20)
+	var kb int
+	fmt.Sscan(kbs, &kb)
+	input := bytes.Repeat([]byte{0xff}, kb<<10)
+	var prop func(t *rapid.T)
+	switch gen {
+	case "deferred-list":
+		var list *rapid.Generator[*c13Node]
+		list = rapid.Deferred(func() *rapid.Generator[*c13Node] {
+			return rapid.OneOf(rapid.Just[*c13Node](nil), rapid.Custom(func(t *rapid.T) *c13Node {
+				return &c13Node{V: rapid.Int8().Draw(t, "v"), Next: list.Draw(t, "next")}
+			}))
+		})
+		prop = func(t *rapid.T) { list.Draw(t, "list") }
+	default:
+		g := rapid.Make[*c13Node]()
+		prop = func(t *rapid.T) { g.Draw(t, "list") }
+	}
+	tb := NewTB("probe")
+	tb.Quiet = true
+	esc := Guard(func() { rapid.VerifCheckFuzz(tb, prop, input) })
+	fmt.Printf("outcome=skip:%v fail:%v escaped:%v\n", tb.IsSkip, tb.IsFail, esc != nil)
 }
